@@ -2,6 +2,8 @@
 canonical dump strings that correspond to C18.Check.dump_frame / dump_regs."""
 from __future__ import annotations
 
+import re
+
 TBL_ID = {"T1": 1, "T2": 2, "T3": 3, "T4": 4}
 TBL_COLS = {"T1": ["a", "b"], "T2": ["a", "c"], "T3": ["c", "d", "e"], "T4": ["b", "a"]}
 
@@ -93,9 +95,13 @@ def frame_str(fr) -> str:
             f"~U:{fr['uuids']}")
 
 
+_HASHNAME = re.compile(r"^t\d{4,9}$")
+
+
 def regs_str(r) -> str:
     amap = ",".join(f"{k}:{v}" for k, v in r["amap"].items())
-    sc = ";".join(f"{k}={'.'.join(v)}" for k, v in r["scache"].items())
+    # a cached column that is named after a CTE (captured identifier) carries a hash name: written "^" as in the model
+    sc = ";".join(f"{k}={'.'.join('^' if _HASHNAME.match(c) else c for c in v)}" for k, v in r["scache"].items())
     return (f"k{r['known']} b{r['kbranch']} s{r['kseq']} a[{amap}] c{r['counter']} v[{','.join(r['views'])}] "
             f"sc[{sc}] e{r['engine_views']}")
 
